@@ -1,0 +1,44 @@
+//go:build verif
+
+package router
+
+// Contracts for the deductive verifier in /verif (govc). Comment-only file: adds no code.
+// (Tree.Search is an opaque predicate here; the matcher itself is covered by the bounded stand-in of C03.)
+
+// ServeHTTP: the path is cleaned once and the same cleaned path is used for dispatch and for the 405/404
+// decision; a match of the request's method invokes that handler; otherwise 405 with the Allow header iff some
+// other method matches, else not-found.
+//@ func (*patRouter).ServeHTTP
+//@   prop C03
+//@   opaque Search, methodsAllowed, handleNotFound, WithVars
+//@   requires pr != nil && r != nil && r.URL != nil && pr.trees != nil
+//@   let cleaned = ret(path.Clean)
+//@   let hit = has(pr.trees, r.Method) && ret(Search, 1)
+//@   ensures [cleans-request-path] calls(path.Clean) == 1 && arg(path.Clean, 0) == old(r.URL.Path)
+//@   ensures [dispatch-on-cleaned] calls(Search) == 1 ==> arg(Search, 1) == cleaned && arg(Search, 0) == pr.trees[r.Method]
+//@   ensures [matched-handler-runs] hit ==> calls(ServeHTTP) == 1 && calls(methodsAllowed) == 0 && calls(handleNotFound) == 0 && calls(WriteHeader) == 0
+//@   ensures [allow-on-cleaned] !hit ==> calls(pr.methodsAllowed) == 1 && arg(methodsAllowed, 1) == r.Method && arg(methodsAllowed, 2) == cleaned
+//@   ensures [404] !hit && !ret(methodsAllowed, 1) ==> calls(pr.handleNotFound, w, r) == 1 && calls(WriteHeader) == 0
+//@   ensures [405] !hit && ret(methodsAllowed, 1) && pr.notAllowed == nil ==> calls(w.WriteHeader, 405) == 1 && calls(Set) == 1 && arg(Set, 1) == "Allow" && arg(Set, 2) == ret(methodsAllowed, 0) && calls(handleNotFound) == 0
+
+// methodsAllowed: exactly the other methods whose tree matches the path are collected.
+//@ func (*patRouter).methodsAllowed
+//@   prop C03
+//@   opaque Search
+//@   requires pr != nil && pr.trees != nil
+//@   loop 1 iteration-ensures [own-method-skipped] treeMethod == method ==> calls(Search) == 0 && len(allows) == at_head(len(allows))
+//@   loop 1 iteration-ensures [others-tested] treeMethod != method ==> calls(tree.Search, path) == 1 && (ret(Search, 1) == (len(allows) == at_head(len(allows)) + 1)) && (ret(Search, 1) ==> allows[at_head(len(allows))] == treeMethod) && (!ret(Search, 1) ==> len(allows) == at_head(len(allows)))
+//@   ensures [none] len(local(allows)) == 0 ==> !result1 && result0 == ""
+//@   ensures [some] len(local(allows)) > 0 ==> result1 && result0 == ret(strings.Join) && arg(strings.Join, 0) == local(allows) && arg(strings.Join, 1) == ", "
+
+// Handle: unsupported methods and paths not starting with '/' are rejected before anything is registered.
+//@ func (*patRouter).Handle
+//@   prop C03
+//@   opaque Add, NewTree
+//@   requires pr != nil && pr.trees != nil
+//@   ensures [bad-method] !(method == "DELETE" || method == "GET" || method == "HEAD" || method == "OPTIONS" || method == "PATCH" || method == "POST" || method == "PUT") ==> result == ErrInvalidMethod && calls(Add) == 0
+//@   ensures [registers-cleaned] calls(Add) == 1 ==> arg(Add, 1) == ret(path.Clean) && arg(path.Clean, 0) == reqPath && arg(Add, 2) == handler && result == ret(Add) && has(pr.trees, method) && arg(Add, 0) == pr.trees[method]
+//@   ensures [bad-path] len(reqPath) == 0 ==> calls(Add) == 0 && (result == ErrInvalidPath || result == ErrInvalidMethod)
+//@ func validMethod
+//@   prop C03
+//@   ensures result == (method == "DELETE" || method == "GET" || method == "HEAD" || method == "OPTIONS" || method == "PATCH" || method == "POST" || method == "PUT")
